@@ -5,8 +5,9 @@ use crate::svg::Doc;
 
 pub struct C17;
 
-const TEMPLATES: [&str; 13] = [
+const TEMPLATES: [&str; 14] = [
     "x \"lbl\"",
+    "say \"open -> x",
     "+--+",
     "|  |",
     "hello",
@@ -55,7 +56,7 @@ impl Prop for C17 {
         "C17"
     }
     fn rule(&self) -> &'static str {
-        "all documents of up to 2 (quick) / 3 (thorough) lines from 13 line templates, plus four fixed legends with 2-3 entries (box parts, text, quoted text, CJK, arrow, empty line, legend header, \
+        "all documents of up to 2 (quick) / 3 (thorough) lines from 14 line templates, plus four fixed legends with 2-3 entries (box parts, text, quoted text, CJK, arrow, empty line, legend header, \
          three legend entries incl. a multi-line one) x {LF, CRLF} x a trailing blank from {none, space, TAB, space+TAB} per line x 0..5 trailing blank lines; \
          each variant's parsed document must equal the LF/no-blank reference (style text modulo white-space runs). \
          distinct_nontrivial = distinct reference outputs (skeleton + style length)"
@@ -86,6 +87,8 @@ impl Prop for C17 {
                     vec!["+--+", "# Legend:", "a = {fill:red}", "b1 = {stroke: blue; fill: none}"],
                     vec!["# Legend:", "a = {fill:red}", "b1 = {stroke: blue; fill: none}", "a = {x:1}"],
                     vec!["x \"lbl\"", "ab", "# Legend:", "a = {fill:red}"],
+                    vec!["# Legend:", "", "a = {fill:red}", "b1 = {stroke: blue; fill: none}"],
+                    vec!["+--+", "# Legend:", "a = {fill:red}", "", "b1 = {stroke: blue; fill: none}"],
                 ] {
                     f(Case::snx("", vec![], doc.into_iter().map(|l| l.to_string()).collect()));
                 }
